@@ -10,6 +10,7 @@ import (
 
 	"verifsim/core"
 	"verifsim/ops"
+	"verifsim/parsers"
 	"verifsim/probereg"
 	"verifsim/refexec"
 	"verifsim/uni"
@@ -249,6 +250,300 @@ func runC06(rc *core.RunCtx) {
 	rc.Res.Sample = map[string]any{"variant": v.Name, "op": op.Query, "plan": planDesc(plan), "schedules": sigs, "data": first.Payloads[0].Raw}
 }
 
-func runC04(rc *core.RunCtx) { rc.Fail("config", "harness", "not built yet") }
-func runC05(rc *core.RunCtx) { rc.Fail("config", "harness", "not built yet") }
-func runC13(rc *core.RunCtx) { rc.Fail("config", "harness", "not built yet") }
+
+func copyPlan(p *refexec.Plan) *refexec.Plan {
+	c := *p
+	c.Faults = map[string]refexec.Kind{}
+	c.DirFaults = map[string]refexec.DirKind{}
+	for k, v := range p.Faults {
+		c.Faults[k] = v
+	}
+	for k, v := range p.DirFaults {
+		c.DirFaults[k] = v
+	}
+	return &c
+}
+
+type faultPoint struct {
+	Kind string // res | dir | marshal
+	Path string
+}
+
+func hasDefer(q string) bool { return strings.Contains(q, "@defer") }
+
+// checkFaulted compares one execution under a fault overlay with the reference under the same
+// overlay, including the RecoverFunc count.
+func checkFaulted(rc *core.RunCtx, cfg Cfg, out *Out, what string) bool {
+	if hasDefer(cfg.Op.Query) && !cfg.ViaHTTP {
+		_, ok := checkDeferredOpt(rc, cfg, out, false)
+		return ok
+	}
+	ref, ok := checkAgainstReference(rc, cfg, out)
+	if !ok {
+		if rc.Res.Violation != nil {
+			rc.Res.Violation.Detail = what + "\n" + rc.Res.Violation.Detail
+		}
+		return false
+	}
+	if out.Recovered != ref.Panics {
+		rc.Fail("recover-count", "recover", "%s: RecoverFunc invoked %d times for %d injected panics; op=%q plan=%v", what, out.Recovered, ref.Panics, cfg.Op.Query, planDesc(cfg.Plan))
+		return false
+	}
+	return true
+}
+
+func runC04(rc *core.RunCtx) {
+	t := rc.Tape
+	v := pickVariant(rc, nil)
+	var op ops.Op
+	switch t.Choose(6, "opsrc") {
+	case 0, 1:
+		op = pickOp(rc, v, opSource{Corpus: plainCorpus, Gen: true, Mutation: true})
+	case 2:
+		op = ops.FaultArgCorpus[t.Choose(len(ops.FaultArgCorpus), "op")]
+	case 3:
+		op = ops.BlobCorpus[t.Choose(len(ops.BlobCorpus), "op")]
+	case 4:
+		op = ops.DeferCorpus[t.Choose(len(ops.DeferCorpus), "op")]
+	default:
+		op = pickOp(rc, v, opSource{Corpus: ops.DeferCorpus, Gen: true, Defer: true})
+	}
+	base := pickPlan(rc, true)
+	base.NullPM = []int{0, 100}[t.Choose(2, "nullpm")]
+	srv := NewServer(rc, v, base)
+	deferOp := hasDefer(op.Query)
+	mk := func(plan *refexec.Plan) Cfg {
+		c := Cfg{Variant: v, Op: op, Plan: plan, Server: srv, Sched: Sched(t.Choose(int(NumScheds), "sched")), CancelAt: -1, ParkDir: t.Bool(1, 3, "parkdir")}
+		if !deferOp {
+			c.ViaHTTP = t.Bool(1, 3, "http")
+		}
+		return c
+	}
+	cfg0 := mk(base)
+	out0 := Execute(rc, cfg0)
+	if !checkFaulted(rc, cfg0, out0, "fault-free pass") {
+		return
+	}
+	ref0 := Reference(out0)
+	var points []faultPoint
+	for _, p := range ref0.Resolved {
+		points = append(points, faultPoint{"res", p})
+	}
+	for _, p := range ref0.DirCalls {
+		points = append(points, faultPoint{"dir", p})
+	}
+	// serialisation-time fault points: Blob-valued resolver positions that produced a value
+	if !deferOp {
+		for _, p := range ref0.Resolved {
+			if j := ref0.Data.At(p); j != nil && j.K == parsers.Str && strings.HasPrefix(j.S, "blob-") {
+				points = append(points, faultPoint{"marshal", p})
+			}
+		}
+	}
+	rc.W.CountN("fault_points", len(points))
+	nexec := 1
+	apply := func(plan *refexec.Plan, fp faultPoint, panicKind bool) string {
+		switch fp.Kind {
+		case "res":
+			if panicKind {
+				plan.Faults[fp.Path] = refexec.KPanic
+				return "resolver panic at " + fp.Path
+			}
+			plan.Faults[fp.Path] = refexec.KError
+			return "resolver error at " + fp.Path
+		case "dir":
+			if panicKind {
+				plan.DirFaults[fp.Path] = refexec.DPanic
+				return "directive panic at " + fp.Path
+			}
+			plan.DirFaults[fp.Path] = refexec.DError
+			return "directive error at " + fp.Path
+		}
+		plan.Faults[fp.Path] = refexec.KMarshalPanic
+		return "marshaler panic at " + fp.Path
+	}
+	for _, fp := range points {
+		for _, panicKind := range []bool{false, true} {
+			if fp.Kind == "marshal" && !panicKind {
+				continue
+			}
+			plan := copyPlan(base)
+			what := apply(plan, fp, panicKind)
+			cfg := mk(plan)
+			if fp.Kind == "marshal" {
+				cfg.ViaHTTP = true
+			}
+			out := Execute(rc, cfg)
+			nexec++
+			rc.W.Count("fault_" + fp.Kind + map[bool]string{false: "_error", true: "_panic"}[panicKind])
+			if fp.Kind == "marshal" {
+				if !checkMarshalPanic(rc, cfg, out, what) {
+					return
+				}
+				continue
+			}
+			if !checkFaulted(rc, cfg, out, what) {
+				return
+			}
+		}
+	}
+	// seeded multi-fault sets
+	if len(points) >= 2 {
+		for n := 0; n < 3; n++ {
+			plan := copyPlan(base)
+			var whats []string
+			k := 2 + t.Choose(3, "nfaults")
+			for j := 0; j < k; j++ {
+				fp := points[t.Choose(len(points), "point")]
+				if fp.Kind == "marshal" {
+					continue
+				}
+				whats = append(whats, apply(plan, fp, t.Bool(1, 2, "panic?")))
+			}
+			cfg := mk(plan)
+			out := Execute(rc, cfg)
+			nexec++
+			rc.W.Count("fault_multi")
+			if !checkFaulted(rc, cfg, out, strings.Join(whats, " + ")) {
+				return
+			}
+		}
+	}
+	// the same server keeps serving: fault-free request again
+	cfgN := mk(base)
+	outN := Execute(rc, cfgN)
+	if !checkFaulted(rc, cfgN, outN, "follow-up fault-free request on the same server") {
+		return
+	}
+	rc.W.CountN("executions", nexec+1)
+	rc.W.Count("variant_" + v.Name)
+	rc.Res.Nontrivial = len(points) > 0
+	rc.Res.Sig = sigOf(v.Name, op.Query, base.Seed, base.NullPM, base.MaxList)
+	rc.Res.Sample = map[string]any{"variant": v.Name, "op": op.Query, "vars": op.Vars, "plan": planDesc(base), "fault_points": points, "executions": nexec + 1}
+}
+
+// checkMarshalPanic: a panic while serialising must fail only that response, with a well-formed
+// error body, one RecoverFunc call, and the server must keep serving (checked by the caller).
+func checkMarshalPanic(rc *core.RunCtx, cfg Cfg, out *Out, what string) bool {
+	if out.Stuck {
+		rc.Fail("stuck", out.StuckSite, "%s: request did not finish; op=%q\n%s", what, cfg.Op.Query, out.StuckDump)
+		return false
+	}
+	j, err := parsers.ParseJSON([]byte(out.HTTPBody))
+	if err != nil || j.K != parsers.Obj {
+		rc.Fail("serialisation-panic-body", "not-json", "%s: body is not a JSON object (%v): %q", what, err, out.HTTPBody)
+		return false
+	}
+	es := j.Get("errors")
+	if es == nil || es.K != parsers.Arr || len(es.A) == 0 {
+		rc.Fail("serialisation-panic-body", "no-errors", "%s: body has no errors list: %q", what, out.HTTPBody)
+		return false
+	}
+	// other injected panics of the same request (argument unmarshalers) are recovered too
+	want := 1
+	if out.Doc != nil && out.Operation != nil {
+		want += Reference(out).Panics
+	}
+	if out.Recovered != want {
+		rc.Fail("recover-count", "recover", "%s: RecoverFunc invoked %d times, expected %d (one serialisation panic plus the request's other injected panics)", what, out.Recovered, want)
+		return false
+	}
+	return true
+}
+
+func runC05(rc *core.RunCtx) {
+	t := rc.Tape
+	v := pickVariant(rc, nil)
+	var op ops.Op
+	switch t.Choose(4, "opsrc") {
+	case 0:
+		op = ops.DeferCorpus[t.Choose(len(ops.DeferCorpus), "op")]
+	case 1:
+		op = pickOp(rc, v, opSource{Corpus: ops.DeferCorpus, Gen: true, Defer: true})
+	default:
+		op = pickOp(rc, v, opSource{Corpus: plainCorpus, Gen: true, Mutation: true})
+	}
+	plan := pickPlan(rc, false)
+	plan.MaxList = []int{2, 5, 1, 3}[t.Choose(4, "maxlist2")]
+	deferOp := hasDefer(op.Query)
+	mk := func(cancelAt int) Cfg {
+		c := Cfg{Variant: v, Op: op, Plan: plan, Sched: Sched(t.Choose(int(NumScheds), "sched")), CancelAt: cancelAt,
+			CtxMode: uniCtx(t.Choose(2, "ctxmode")), ParkDir: t.Bool(1, 3, "parkdir")}
+		switch t.Choose(3, "transport") {
+		case 1:
+			c.ViaHTTP = true
+		case 2:
+			c.Single = true
+		}
+		return c
+	}
+	endCheck := func(cfg Cfg, out *Out, what string) bool {
+		if out.Stuck {
+			rc.Fail("stuck", out.StuckSite, "%s: every resolver has returned but the request does not finish; variant=%s op=%q sched=%s http=%v single=%v\n%s", what, v.Name, op.Query, cfg.Sched, cfg.ViaHTTP, cfg.Single, out.StuckDump)
+			return false
+		}
+		leaks := EndOfLife(rc)
+		if len(leaks) > 0 {
+			rc.Fail("goroutine-left-behind", leaks[0].TopSUTFrame(), "%s: %d goroutine(s) alive after the request ended and its context was cancelled; variant=%s op=%q http=%v single=%v\n%s", what, len(leaks), v.Name, op.Query, cfg.ViaHTTP, cfg.Single, leaks[0].Raw)
+			return false
+		}
+		return true
+	}
+	cfg0 := mk(-1)
+	out0 := Execute(rc, cfg0)
+	if !endCheck(cfg0, out0, "no cancellation") {
+		return
+	}
+	K := out0.Quiescent
+	rc.W.CountN("cancel_points", K+2)
+	for k := 0; k <= K+1; k++ {
+		cfg := mk(k)
+		out := Execute(rc, cfg)
+		if out.Cancelled {
+			rc.W.Count("cancelled_midflight")
+		}
+		if !endCheck(cfg, out, fmt.Sprintf("context cancelled at quiescent point %d of %d", k, K)) {
+			return
+		}
+	}
+	rc.W.Count("variant_" + v.Name)
+	if deferOp {
+		rc.W.Count("defer_ops")
+	}
+	rc.Res.Nontrivial = K >= 2
+	rc.Res.Sig = sigOf(v.Name, op.Query, plan.Seed, plan.NullPM, plan.ErrPM, plan.MaxList)
+	rc.Res.Sample = map[string]any{"variant": v.Name, "op": op.Query, "plan": planDesc(plan), "cancel_points": K + 2}
+}
+
+func uniCtx(i int) uni.CtxMode { return uni.CtxMode(i) }
+
+func runC13(rc *core.RunCtx) {
+	t := rc.Tape
+	v := pickVariant(rc, nil)
+	op := pickOp(rc, v, opSource{Corpus: ops.DeferCorpus, Gen: true, Defer: true})
+	plan := pickPlan(rc, false)
+	cfg := Cfg{Variant: v, Op: op, Plan: plan, Sched: Sched(t.Choose(int(NumScheds), "sched")), CancelAt: -1, ParkDir: t.Bool(1, 3, "parkdir")}
+	out := Execute(rc, cfg)
+	info, ok := checkDeferred(rc, cfg, out)
+	if info != nil {
+		rc.W.CountN("incremental_payloads", info.Incremental)
+		rc.W.CountN("failed_groups", info.FailedGroups)
+		rc.W.CountN("payload_before_object", info.OutOfOrder)
+		if info.ErrorsSubset {
+			rc.W.Count("errors_strict_subset")
+		}
+		if info.Incremental > 0 {
+			rc.W.Count("ops_with_groups")
+		}
+	}
+	rc.W.Count("variant_" + v.Name)
+	rc.Res.Nontrivial = info != nil && info.Incremental > 0
+	rc.Res.Sig = sigOf(v.Name, op.Query, plan.Seed, plan.NullPM, plan.ErrPM, plan.DirPM, plan.MaxList, strings.Join(out.Sig, ","))
+	if ok {
+		var ps []map[string]any
+		for _, p := range out.Payloads {
+			ps = append(ps, map[string]any{"path": p.Path, "label": p.Label, "data": p.Raw, "errors": refexec.SortedErrs(p.Errors)})
+		}
+		rc.Res.Sample = map[string]any{"variant": v.Name, "op": op.Query, "plan": planDesc(plan), "sched": cfg.Sched.String(), "payloads": ps}
+	}
+}
